@@ -49,7 +49,13 @@ class Tape:
             return getattr(self, name)
         if name == 'keys':
             return lambda: self._keys
-        raise AttributeError(name)
+        res = getattr(self, 'method_resolver', None)
+        if res is not None:
+            m = res(interp, self, name)        # a helper method that is not in the baseline of TapeRecorder: inlined
+            if m is not None:
+                return m
+        # not part of this model of a tape: whether the real object has it is unknown here -> undecided, not an AttributeError
+        raise OutOfSubset(f'TapeRecorder.{name} is not modelled')
 
     def kvc_isinstance(self, interp, cls):
         classes = cls if isinstance(cls, tuple) else (cls,)
